@@ -132,8 +132,10 @@ def _c15_plan(tier, verif_seed):
         for other in range(3):
             for order in (0, 1):
                 plan.append((kk, ["twofiles", other, order]))
-        plan.append((kk, ["trunc_data", 1]))
-        plan.append((kk, ["trunc_wrap", 1]))
+        for nb in (1, 2, 3, 4, 5, 8, 12, 15, 16, 17, 20, 32):
+            # the tail of a MAC-protected value is lost (any number of bytes, not only whole cipher blocks)
+            plan.append((kk, ["trunc_data", nb]))
+            plan.append((kk, ["trunc_wrap", nb]))
     return plan
 
 
@@ -167,9 +169,9 @@ def _run_c15(case, world, log, v):
         b[t[1]] ^= t[2]
         vmx_text = vmx_text.replace(base64.b64encode(data_blob).decode(), base64.b64encode(bytes(b)).decode())
     elif t[0] == "trunc_data":
-        vmx_text = vmx_text.replace(base64.b64encode(data_blob).decode(), base64.b64encode(data_blob[:-16]).decode())
+        vmx_text = vmx_text.replace(base64.b64encode(data_blob).decode(), base64.b64encode(data_blob[: -t[1]]).decode())
     elif t[0] == "trunc_wrap":
-        newpair = W.pair_text_from_blob(pairs[cfg["which"]], blobs[cfg["which"]][:-16], cfg["upper"])
+        newpair = W.pair_text_from_blob(pairs[cfg["which"]], blobs[cfg["which"]][: -t[1]], cfg["upper"])
         vmx_text = vmx_text.replace(pairs[cfg["which"]], newpair)
     elif t[0] == "pass":
         pw = {"prefix": pw[:-1], "case": pw.swapcase() if pw.swapcase() != pw else pw + "A", "empty": "", "unicode": pw + "é",
@@ -504,9 +506,16 @@ def _run_c16(case, world, log, v):
 
     raised = None
     result = None
+    # tampered envelopes are also opened while a read call fails once (the k-th of the handle, k from the case index): a fault
+    # may make the open fail, it may never switch a check off
+    eio_k = (case.get("index", 0) % 9) if t[0] != "none" else 0
     try:
         with metered(STEP_LIMIT, "loop"):
-            ev = Envelope(world.handle(d + "/state.tgz.ve"))
+            fh = world.handle(d + "/state.tgz.ve")
+            if 1 <= eio_k <= 6:
+                fh.eio_at, fh.fault_kind = eio_k, "eio"
+            ev = Envelope(fh)
+            fh.eio_at = None
             result = ev.decrypt(use_key, aad=use_aad)
     except BudgetExceeded:
         return v("budget", "decrypt did not finish within the step budget"), cfg
@@ -544,7 +553,7 @@ def plan_size(prop, tier, verif_seed):
 def gen_case(seed, prop, tier, index=0, verif_seed=1):
     plan = _plan(prop, tier, verif_seed)
     k, tamper = plan[index % len(plan)]
-    return {"engine": "cryptosim", "prop": prop, "seed": seed, "k": k, "tamper": list(tamper), "verif_seed": verif_seed}
+    return {"engine": "cryptosim", "prop": prop, "seed": seed, "k": k, "tamper": list(tamper), "verif_seed": verif_seed, "index": index}
 
 
 def run_case(case: dict) -> RunResult:
